@@ -16,7 +16,7 @@ from .c09 import finish
 from .c11 import gen_nested_big
 from .c05 import with_probes
 
-AUDIT = re.compile(r'\b(into_group_map|into_grouping_map|into_group_map_by|counts_by|HashMap|HashSet|RandomState|std::env|env::var|SystemTime|Instant::|thread_rng|rand::|std::fs|fs::read|as \*const|\.as_ptr\(\)|process::id|thread::current)\b')
+AUDIT = re.compile(r'\b(into_group_map\w*|into_grouping_map\w*|GroupingMap|counts_by|counts\(\)|HashMap|HashSet|RandomState|std::env|env::var|SystemTime|Instant::|thread_rng|rand::|std::fs|fs::read|as \*const|\.as_ptr\(\)|process::id|thread::current)\b')
 
 
 def tie_case(rng):
@@ -84,7 +84,10 @@ def run(tier, seed, replay=None):
                         # like a broken correspondence (no-failing-input-found) unless a case below differs
                         violations.append(dict(kind='correspondence', request='%s:%d' % (os.path.join(root, f), ln),
                                                oracle='corr:audit: order- or environment-dependent API in the expansion code (determinism is no longer shown by C07_hasher_irrelevant + the audit): ' + line.strip()[:200]))
-    cases = [tie_case(rng), composite_case(rng)]
+    from .c05 import f16_case
+    # the shape of known finding F16: three groupings of the same minimal size (which one is chosen must not
+    # depend on the process)
+    cases = [tie_case(rng), composite_case(rng), f16_case()]
     kinds = ['multi', 'nested_big', 'tie', 'composite', 'flat', 'nested', 'unsized2', 'tworoots']
     while len(cases) < n:
         k = kinds[len(cases) % len(kinds)]
